@@ -66,6 +66,7 @@ pub enum V {
     FromWords(usize, Vec<usize>),
     OfKmer(usize, Box<S>),
     CloneOf(Box<V>),
+    FromBits(usize, Box<V>),
 }
 
 /// borrowed slices
@@ -248,6 +249,10 @@ fn parse_v_kw(k: &str, t: &mut Toks) -> PResult<V> {
             V::OfKmer(kk, Box::new(parse_s(t)?))
         }
         "clone" => V::CloneOf(Box::new(parse_v(t)?)),
+        "frombits" => {
+            let off = t.num()?;
+            V::FromBits(off, Box::new(parse_v(t)?))
+        }
         _ => return Err(format!("bad value keyword {k}")),
     })
 }
